@@ -73,6 +73,30 @@ def _abs_eval(n, v):
     raise AnalysisError(f'guard {norm(n)} not understood')
 
 
+def _linear(n, t_text, h_text, sign):
+    """(coef of timer, coef of heap head, constant) of a +/- expression over
+    those two atoms and numeric constants, times `sign`; None otherwise."""
+    tx = norm(n)
+    if tx == t_text:
+        return (sign, 0, 0)
+    if tx == h_text:
+        return (0, sign, 0)
+    if isinstance(n, ast.Constant) and isinstance(n.value, (int, float)) \
+            and not isinstance(n.value, bool):
+        return (0, 0, sign * n.value)
+    if isinstance(n, ast.UnaryOp) and isinstance(n.op, (ast.USub, ast.UAdd)):
+        return _linear(n.operand, t_text, h_text,
+                       -sign if isinstance(n.op, ast.USub) else sign)
+    if isinstance(n, ast.BinOp) and isinstance(n.op, (ast.Add, ast.Sub)):
+        a = _linear(n.left, t_text, h_text, sign)
+        b = _linear(n.right, t_text, h_text,
+                    sign if isinstance(n.op, ast.Add) else -sign)
+        if a is None or b is None:
+            return None
+        return tuple(x + y for x, y in zip(a, b))
+    return None
+
+
 def _order_field(program):
     """(ordering field, generator field position info) of the wait record."""
     wg = program.cls('_WaitingGenerator')
@@ -98,6 +122,37 @@ def run(program, rep, tier, sleep_only=False):
     dtp = f.params()[1]
     wg, wfields, OF = _order_field(program)
     OFN = OF or 'wait_time'
+    # ---- the wake scan is not put behind a quantity the rules do not model
+    # (e.g. a cached "earliest deadline": whether every push keeps it a lower
+    # bound of the heap is an invariant of its own - no verdict)
+    known_attrs = {'_timer', '_wait_queue', '_active_queue', '_generators',
+                   '_kill_queue', '_promises'}
+    def _guards(node, path, out):
+        for ch in ast.iter_child_nodes(node):
+            if isinstance(ch, ast.While) and f'.{OFN}' in norm(ch.test) \
+                    and WQ in norm(ch.test):
+                out.append(list(path))
+            _guards(ch, path + [ch.test] if isinstance(ch, ast.If)
+                    and ch is not node else path, out)
+    found = []
+    from .util import methods_of as _mo, called_only_from as _cof
+    todo_ = [f] + [m for m in cp.methods.values()
+                   if m.name in _cof(_mo(program, cp), {'process'})[0]]
+    for m in todo_:
+        _guards(m.node, [], found)
+    for path in found:
+        for tst in path:
+            other = sorted({a.attr for a in ast.walk(tst) if isinstance(
+                a, ast.Attribute) and isinstance(a.value, ast.Name)
+                and a.value.id == 'self' and a.attr not in known_attrs})
+            if other and not sleep_only:
+                rep.inconclusive(
+                    'C08.deadline', site, tst,
+                    f'the wake scan runs only when `{norm(tst)}` holds, a '
+                    f'test that reads self.{other[0]}: whether that quantity '
+                    'is kept a lower bound of every deadline in the heap (at '
+                    'each push, after each scan) is not modelled',
+                    line=tst.lineno)
     # ---- writes of the timer, whole class ----------------------------------
     n_w = 0
     from .util import methods_of, called_only_from
@@ -242,7 +297,7 @@ def run(program, rep, tier, sleep_only=False):
                         empty_known = truth
                     else:
                         empty_known = not truth
-                if f'.{OFN}' in t and T in t:
+                if f'.{OFN}' in t and T in t and WQ in t:
                     cnt['wake'] += 1
                     if not wake_seen and advs != 1:
                         flag('writes', e.node,
@@ -264,6 +319,23 @@ def run(program, rep, tier, sleep_only=False):
                                 or (l == head and r == T and isinstance(
                                     op, ast.LtE)):
                             ok = True
+                        else:
+                            # the same test with the terms moved across the
+                            # comparison: lhs - rhs as a linear form over
+                            # (timer, head, 1); float subtraction of two
+                            # different numbers is never 0 (gradual
+                            # underflow), so `h - t <= 0` is `t >= h`
+                            lin = _linear(n.left, T, head, +1)
+                            lin2 = _linear(n.comparators[0], T, head, -1)
+                            if lin is not None and lin2 is not None:
+                                ct, ch, c0 = (a_ + b_ for a_, b_ in
+                                              zip(lin, lin2))
+                                if (ct, ch, c0) == (1, -1, 0) and isinstance(
+                                        op, ast.GtE):
+                                    ok = True
+                                if (ct, ch, c0) == (-1, 1, 0) and isinstance(
+                                        op, ast.LtE):
+                                    ok = True
                     if not ok:
                         flag('deadline', e.node,
                              f'the wake test is "{t}", not "self._timer >= '
@@ -464,6 +536,7 @@ def run(program, rep, tier, sleep_only=False):
     # value are consistent with it?
     outcomes = {v: set() for v in ('none', 'neg', 'zero', 'pos')}
     unknown = None
+    skipped = None
     for ex in exits:
         tr = ex.state.trace
         nexts = [i for i, e in enumerate(tr) if e.kind == 'call'
@@ -504,9 +577,12 @@ def run(program, rep, tier, sleep_only=False):
                             outcomes[v].add('TypeError')
                         break
                     except (AnalysisError, SyntaxError) as ex2:
-                        unknown = str(ex2)
-                        consistent = False
-                        break
+                        # not a test of the sign of the yielded value: left
+                        # unconstrained (both outcomes of it are explored, so
+                        # the outcome sets only grow); a wrong verdict reached
+                        # this way is reported as inconclusive below
+                        skipped = str(ex2)
+                        continue
                     if got != c.extra:
                         consistent = False
                         break
@@ -521,6 +597,9 @@ def run(program, rep, tier, sleep_only=False):
             want = {'push'} if v == 'pos' else {'stay'}
             if got != want:
                 wrong = (v, sorted(got))
+        if wrong is not None and skipped:
+            rep.inconclusive('C08.sleep', site, 'sleep test', skipped)
+            wrong = None
         rep.check(wrong is None, 'C08.sleep', site,
                   'process(): what happens to a yielded value',
                   'a coroutine is sent to the heap exactly when it yields a '
